@@ -345,3 +345,94 @@ pub fn printed(out: &[Out]) -> String {
     }
     s
 }
+
+// ------------------------------------------------------------------ intents
+
+/// What a generated history *wants* to do; the driver maps an intent that is
+/// illegal in the current state to the nearest legal host call, so that every
+/// generated history respects the turn-taking protocol and none is discarded.
+#[derive(Debug, Clone, PartialEq, Serialize, Deserialize)]
+pub enum Intent {
+    /// Submit a line (idle), else: answer with it (awaiting input) / continue one turn (running).
+    Line(String),
+    /// Continue for up to n turns while running.
+    Continue(u16),
+    /// Answer an input request; when idle the text is submitted as a line.
+    Reply(String),
+    /// Break in (running or awaiting input); no-op when idle.
+    Break,
+    /// Seed the random number generator (legal in every state).
+    Seed(u64),
+}
+
+#[derive(Debug, Clone, Copy, PartialEq, Eq, Hash, Serialize, Deserialize)]
+pub enum CallKind {
+    Line,
+    Continue,
+    Reply,
+    Break,
+}
+
+impl Sess {
+    /// Applies one intent; returns the host calls actually made with their results.
+    pub fn apply(&mut self, intent: &Intent) -> Result<Vec<(CallKind, Option<String>, CallResult)>, Crash> {
+        let mut calls = vec![];
+        match intent {
+            Intent::Seed(s) => self.randomize(*s),
+            Intent::Break => {
+                if self.state()? != St::Idle {
+                    let r = self.brk()?;
+                    calls.push((CallKind::Break, None, r));
+                }
+            }
+            Intent::Continue(n) => {
+                let mut n = *n;
+                while n > 0 && self.state()? == St::Running {
+                    n -= 1;
+                    let r = self.cont()?;
+                    let stop = r.err.is_some();
+                    calls.push((CallKind::Continue, None, r));
+                    if stop {
+                        break;
+                    }
+                }
+            }
+            Intent::Line(t) | Intent::Reply(t) => match self.state()? {
+                St::Idle => {
+                    let r = self.line(t)?;
+                    calls.push((CallKind::Line, Some(t.clone()), r));
+                }
+                St::AwaitingInput => {
+                    let r = self.reply(t)?;
+                    calls.push((CallKind::Reply, Some(t.clone()), r));
+                }
+                St::Running => {
+                    let r = self.cont()?;
+                    calls.push((CallKind::Continue, None, r));
+                }
+            },
+        }
+        Ok(calls)
+    }
+}
+
+/// Well-formedness of the caret rendering of an error (C01 clause 3).
+pub fn caret_well_formed(e: &ErrInfo) -> Result<(), String> {
+    match e.caret.len() {
+        0 => Ok(()),
+        2 => {
+            let first = &e.caret[0];
+            let second = &e.caret[1];
+            let blanks = second.chars().take_while(|c| *c == ' ').count();
+            let carets = second.chars().skip(blanks).take_while(|c| *c == '^').count();
+            if blanks + carets != second.chars().count() || carets == 0 {
+                return Err(format!("caret line {:?} is not blanks followed by carets", second));
+            }
+            if blanks > first.len() + 1 {
+                return Err(format!("caret at column {} beyond the source line {:?}", blanks, first));
+            }
+            Ok(())
+        }
+        n => Err(format!("{} lines rendered for an error", n)),
+    }
+}
